@@ -8,6 +8,7 @@ import (
 	"go/token"
 	"go/types"
 	"sort"
+	"strings"
 
 	"golang.org/x/tools/go/ssa"
 )
@@ -18,6 +19,7 @@ type loop struct {
 	ordinal  int
 	rangeIdx *ssa.Alloc // rangeindex cell for range-over-slice loops
 	rangeLen ssa.Value  // the len value compared against
+	countIdx *ssa.Alloc // the counter cell of a `for i := a; i < n; i++` loop
 }
 
 type loopInfo struct {
@@ -68,6 +70,47 @@ func (x *Exec) loopsOf(fn *ssa.Function) *loopInfo {
 					}
 				}
 			}
+		}
+	}
+	// counting-loop pattern: `for i := a; i < n; i++`: the header compares a load of a local cell, and the only
+	// store to that cell inside the loop adds 1 to its own value. $i is then the current value of the cell.
+	for _, lp := range li.loops {
+		if lp.rangeIdx != nil {
+			continue
+		}
+		iff, ok := lp.header.Instrs[len(lp.header.Instrs)-1].(*ssa.If)
+		if !ok {
+			continue
+		}
+		cmp, ok := iff.Cond.(*ssa.BinOp)
+		if !ok || cmp.Op != token.LSS {
+			continue
+		}
+		ld, ok := cmp.X.(*ssa.UnOp)
+		if !ok || ld.Op != token.MUL {
+			continue
+		}
+		al, ok := ld.X.(*ssa.Alloc)
+		if !ok {
+			continue
+		}
+		stores, incs := 0, 0
+		for b := range lp.body {
+			for _, in := range b.Instrs {
+				if st, ok := in.(*ssa.Store); ok && st.Addr == al {
+					stores++
+					if add, ok := st.Val.(*ssa.BinOp); ok && add.Op == token.ADD {
+						if l2, ok := add.X.(*ssa.UnOp); ok && l2.X == al {
+							if c, ok := add.Y.(*ssa.Const); ok && c.Value != nil && c.Value.ExactString() == "1" {
+								incs++
+							}
+						}
+					}
+				}
+			}
+		}
+		if stores == 1 && incs == 1 {
+			lp.countIdx = al
 		}
 	}
 	x.loops[fn] = li
@@ -323,7 +366,18 @@ func (x *Exec) modsOfStatic(m *modSet, callee *ssa.Function, ci ssa.CallInstruct
 		return
 	}
 	if !inRepo {
-		m.all = true
+		var ats []types.Type
+		for _, a := range ci.Common().Args {
+			ats = append(ats, a.Type())
+		}
+		reach, all := x.w.reachTypes(ats)
+		if all {
+			m.all = true
+			return
+		}
+		for _, t := range reach {
+			m.addField(x.w, t, -1)
+		}
 		return
 	}
 	if seen[callee] {
@@ -662,6 +716,23 @@ func (x *Exec) enterLoopHeader(s *State, fr *Frame, lp *loop, from *ssa.BasicBlo
 		panic(x.subsetf("loop %d of %s is marked unroll but its test is not concrete", lp.ordinal, fr.fn))
 	}
 	fname := shortFn(fnKey(fr.fn))
+	// An invariant that names a local which no longer exists (and cannot be re-bound) is dropped with a note:
+	// invariants are auxiliary, the remaining ones must carry the proof. Decided once, at loop entry.
+	if !backEdge && lspec != nil {
+		skip := map[int]bool{}
+		ctx := x.loopCtx(s, fr, lp)
+		for ci, c := range lspec.Invariants {
+			if msg, ok := x.bindable(ctx, c.Expr); !ok {
+				skip[ci] = true
+				x.rebound[fmt.Sprintf("invariant %q of loop %d in %s dropped, it does not bind (%s)", c.Label, lp.ordinal, fname, msg)] = true
+			}
+		}
+		if fr.invSkip == nil {
+			fr.invSkip = map[*ssa.BasicBlock]map[int]bool{}
+		}
+		fr.invSkip[lp.header] = skip
+	}
+	skipped := func(ci int) bool { return fr.invSkip != nil && fr.invSkip[lp.header][ci] }
 	evalInv := func(kind string) {
 		ctx := x.loopCtx(s, fr, lp)
 		if lp.rangeIdx != nil && lp.rangeLen != nil {
@@ -671,6 +742,9 @@ func (x *Exec) enterLoopHeader(s *State, fr *Frame, lp *loop, from *ssa.BasicBlo
 		}
 		if lspec != nil {
 			for ci, c := range lspec.Invariants {
+				if skipped(ci) {
+					continue
+				}
 				label := c.Label
 				if label == "" {
 					label = fmt.Sprintf("i%d", ci)
@@ -711,7 +785,10 @@ func (x *Exec) enterLoopHeader(s *State, fr *Frame, lp *loop, from *ssa.BasicBlo
 		s.assume(And(Le(IntT(0), i), Le(i, ln)))
 	}
 	if lspec != nil {
-		for _, c := range lspec.Invariants {
+		for ci, c := range lspec.Invariants {
+			if skipped(ci) {
+				continue
+			}
 			s.assume(x.evalBool(ctx, c.Expr))
 		}
 	}
@@ -755,6 +832,26 @@ func (x *Exec) loopCtx(s *State, fr *Frame, lp *loop) *EvalCtx {
 	if lp.rangeIdx != nil {
 		if c, ok := fr.cells[lp.rangeIdx]; ok {
 			env["$i"] = Value{T: types.Typ[types.Int], Term: Add(s.cellVal[c].Term, IntT(1))}
+		}
+	}
+	if lp.countIdx != nil {
+		if c, ok := fr.cells[lp.countIdx]; ok {
+			if v, ok := s.cellVal[c]; ok && v.Term != nil {
+				env["$i"] = Value{T: types.Typ[types.Int], Term: v.Term}
+			}
+		}
+	}
+	// $i1, $i2: the index currently being visited by the enclosing range loops (innermost first)
+	var outer []*loop
+	for _, o := range x.loopsOf(fr.fn).loops {
+		if o != lp && o.body[lp.header] && o.rangeIdx != nil {
+			outer = append(outer, o)
+		}
+	}
+	sort.SliceStable(outer, func(i, j int) bool { return len(outer[i].body) < len(outer[j].body) })
+	for k, o := range outer {
+		if c, ok := fr.cells[o.rangeIdx]; ok {
+			env[fmt.Sprintf("$i%d", k+1)] = Value{T: types.Typ[types.Int], Term: s.cellVal[c].Term}
 		}
 	}
 	return &EvalCtx{x: x, st: s, old: x.entry, env: env, sf: funcHome[x.spec], fr: fr, pos: x.loopPos(lp)}
@@ -804,4 +901,20 @@ func (x *Exec) concreteTest(s *State, fr *Frame, lp *loop) bool {
 	}
 	c, has := tfr.vals[iff.Cond]
 	return has && c.Term != nil && c.Term.K == KBool
+}
+
+// bindable reports whether every identifier of a clause resolves in the context (evaluation errors other than
+// unknown identifiers are contract errors and stay fatal).
+func (x *Exec) bindable(ctx *EvalCtx, e SExpr) (msg string, ok bool) {
+	defer func() {
+		if r := recover(); r != nil {
+			if se, isSpec := r.(specErr); isSpec && strings.Contains(se.msg, "unknown identifier") {
+				msg, ok = se.msg[strings.Index(se.msg, "unknown identifier"):], false
+				return
+			}
+			panic(r)
+		}
+	}()
+	x.eval(ctx, e)
+	return "", true
 }
